@@ -77,3 +77,22 @@ Theorem C07_outside_fragment_refuted : forall op, is_equality op = false ->
   (exists a b, compare_values D0 op (VStr a) (VStr b) <> Val (VBool (xcompare string_to_number op (XStr a) (XStr b)))).
 Proof. intros op H. exact (proj1 (follows_spec_is_exact op H)). Qed.
 Print Assumptions C07_outside_fragment_refuted.
+
+(* ---- builder link (Proofs/BuildOps.v): the text [E1 op E2] with a comparison
+   operator compiles to the comparison of the compiled operands, whose value is the
+   XPath comparison of their values ---- *)
+From XP Require Import Parse Build Api.
+From XP.Proofs Require Import BuildOps.
+
+Theorem C07_compiled_comparison : forall re_ok D has_ns hcode rm rn rr text ns op o a1 a2 q1 q2,
+  parse text ns = Ok (AOp op a1 a2) -> cmp_of op = Some o -> operands_build re_ok a1 a2 q1 q2 ->
+  compile re_ok text ns = Ok (QLogical o q1 q2) /\
+  (forall c m n x y, eval D has_ns hcode rm rn rr q1 c = Val m -> eval D has_ns hcode rm rn rr q2 c = Val n ->
+     abs D m = Some x -> abs D n = Some y -> follows_spec o x y = true ->
+     eval D has_ns hcode rm rn rr (QLogical o q1 q2) c = Val (VBool (xcompare string_to_number o x y))).
+Proof.
+  intros re_ok D has_ns hcode rm rn rr text ns op o a1 a2 q1 q2 Hp Ho Hb.
+  destruct (compiled_comparison re_ok D has_ns hcode rm rn rr text ns op o a1 a2 q1 q2 Hp Ho Hb) as (K1 & _ & K3 & _).
+  split; [exact K1|exact K3].
+Qed.
+Print Assumptions C07_compiled_comparison.
